@@ -45,6 +45,19 @@ async fn last_index(mgr: &Addr<RaftLogManager>) -> u64 {
 async fn query(mgr: &Addr<RaftLogManager>, a: u64, b: u64) -> Vec<(u64, u64)> {
     match mgr.send(RaftLogManagerAsyncRequest::Query { start: a, end: b }).await.unwrap().unwrap() { RaftLogResponse::QueryResult(l) => l.iter().map(|r| (r.index, r.term)).collect(), _ => panic!() }
 }
+struct Collect { got: std::sync::Mutex<Vec<(u64, u64)>> }
+#[async_trait::async_trait]
+impl LogRecordLoader for Collect {
+    async fn load(&self, dto: LogRecordDto) -> anyhow::Result<()> { self.got.lock().unwrap().push((dto.index, dto.term)); Ok(()) }
+}
+/// the replay path (load_record across files)
+async fn load(mgr: &Addr<RaftLogManager>, a: u64, b: u64) -> Vec<(u64, u64)> {
+    let c = Arc::new(Collect { got: std::sync::Mutex::new(vec![]) });
+    let loader: Arc<dyn LogRecordLoader + Sync + Send + 'static> = c.clone();
+    mgr.send(RaftLogManagerAsyncRequest::Load { start: a, end: b, loader }).await.unwrap().unwrap();
+    let v = c.got.lock().unwrap().clone();
+    v
+}
 fn window(model: &[(u64, u64)], a: u64, b: u64) -> Vec<(u64, u64)> { model.iter().filter(|e| e.0 >= a && e.0 < b).cloned().collect() }
 
 async fn compare(tag: &str, mgr: &Addr<RaftLogManager>, model: &[(u64, u64)], bounds: &[u64], bad: &mut Vec<String>) {
@@ -57,6 +70,10 @@ async fn compare(tag: &str, mgr: &Addr<RaftLogManager>, model: &[(u64, u64)], bo
         let got = query(mgr, *a, a + len).await;
         let want = window(model, *a, a + len);
         if got != want { bad.push(format!("VX-BOUNDED-FAIL {} query [{}, {}) = {:?} instead of {:?}", tag, a, a + len, &got[..got.len().min(4)], &want[..want.len().min(4)])); return; }
+        if len == 40 {
+            let got = load(mgr, *a, a + len).await;
+            if got != want { bad.push(format!("VX-BOUNDED-FAIL {} replay (Load) [{}, {}) = {:?} instead of {:?}", tag, a, a + len, &got[..got.len().min(4)], &want[..want.len().min(4)])); return; }
+        }
     } }
 }
 
